@@ -45,7 +45,11 @@ def warm_start(
     pstart = f.variables["particle_count"][:-1].sum()
     pcount = f.variables["particle_count"][-1]
     pend = pstart + pcount
-    pid_max = np.max(f.variables["pid"][:]) + 1
+    # Number of particles released so far: particle variables are stored for all of
+    # them, otherwise use the highest pid present in the file
+    pid_max = len(f.dimensions["particle"]) if "particle" in f.dimensions else 0
+    if len(f.variables["pid"]) > 0:
+        pid_max = max(pid_max, int(np.max(f.variables["pid"][:])) + 1)
 
     logger.info("antall partikler = %s", pcount)
 
